@@ -102,6 +102,35 @@ def gen_config(rng, escape=False, small=False, kicks=None, tout=None):
     return cfg
 
 
+def edge_ages(cfg):
+    """lifetimes of the stellar bin edges of a configuration (ages at which the turn-off mass sits on a bin edge), within 14 Gyr"""
+    import math, warnings
+    import numpy as np
+    from ssptools.masses import PowerLawIMF, MassBins
+    from ssptools import ifmr
+    import real
+    kw = cfg["kw"]
+    im = ifmr.IFMR(cfg["FeH"], BH_method=kw.get("BH_IFMR_method", "banerjee20"))
+    imf = PowerLawIMF(m_break=cfg["m_breaks"], a=cfg["a_slopes"], N0=cfg["N0"], ext="zeros")
+    with warnings.catch_warnings():
+        warnings.simplefilter("ignore")
+        mb = MassBins(cfg["m_breaks"], cfg["nbins"], imf, im, binning_method=kw.get("binning_method", "default"))
+    a0, a1, a2 = map(float, real.msto_row(cfg["FeH"]))
+    ts = [float(a0 * np.exp(a1 * u ** a2)) for u in np.atleast_1d(mb.bins.MS.upper)]
+    return [t for t in ts if t < 14000.0]
+
+
+def add_edge_age(cfg, rng):
+    """put one requested age exactly on (or one ulp beside) a bin-edge lifetime"""
+    import math
+    ts = edge_ages(cfg)
+    if ts:
+        t = rng.choice(ts)
+        t = rng.choice([t, t, math.nextafter(t, 0.0), math.nextafter(t, math.inf)])
+        cfg["tout"] = list(cfg["tout"]) + [t]
+    return cfg
+
+
 def build(cfg, cls=None, **override):
     """construct the real model for a config"""
     import warnings
